@@ -414,8 +414,11 @@ pub fn feed_all_known(bytes: &[u8], text: &str, alg_idx: usize, known: &mut Vec<
 		use pki_types::{PrivateKeyDer, PrivatePkcs1KeyDer, PrivatePkcs8KeyDer, PrivateSec1KeyDer};
 		let algs = sig_algs();
 		let alg = algs[alg_idx % algs.len()];
-		if call!("KeyPair::try_from(&[u8])", rcgen::KeyPair::try_from(bytes)).is_ok() {
+		// whatever loads is then used to sign
+		let mut loaded: Vec<rcgen::KeyPair> = Vec::new();
+		if let Ok(k) = call!("KeyPair::try_from(&[u8])", rcgen::KeyPair::try_from(bytes)) {
 			accepted += 1;
+			loaded.push(k);
 		}
 		let _ = call!("KeyPair::try_from(Vec<u8>)", rcgen::KeyPair::try_from(bytes.to_vec()));
 		let _ = call!("KeyPair::try_from(&PrivatePkcs8KeyDer)", rcgen::KeyPair::try_from(&PrivatePkcs8KeyDer::from(bytes.to_vec())));
@@ -424,8 +427,21 @@ pub fn feed_all_known(bytes: &[u8], text: &str, alg_idx: usize, known: &mut Vec<
 			PrivateKeyDer::Sec1(PrivateSec1KeyDer::from(bytes.to_vec())),
 			PrivateKeyDer::Pkcs1(PrivatePkcs1KeyDer::from(bytes.to_vec())),
 		] {
-			let _ = call!("KeyPair::try_from(&PrivateKeyDer)", rcgen::KeyPair::try_from(&k));
-			let _ = call!("KeyPair::from_der_and_sign_algo", rcgen::KeyPair::from_der_and_sign_algo(&k, alg));
+			if let Ok(kp) = call!("KeyPair::try_from(&PrivateKeyDer)", rcgen::KeyPair::try_from(&k)) {
+				if loaded.len() < 2 {
+					loaded.push(kp);
+				}
+			}
+			if let Ok(kp) = call!("KeyPair::from_der_and_sign_algo", rcgen::KeyPair::from_der_and_sign_algo(&k, alg)) {
+				if loaded.len() < 3 {
+					loaded.push(kp);
+				}
+			}
+		}
+		for kp in &loaded {
+			let _ = call!("serialize_request with a loaded key", rcgen::CertificateParams::default().serialize_request(kp));
+			let _ = call!("public_key_der of a loaded key", Ok::<_, rcgen::Error>(kp.public_key_der()));
+			let _ = call!("serialize_pem of a loaded key", Ok::<_, rcgen::Error>(kp.serialize_pem()));
 		}
 		let _ = call!("KeyPair::from_pkcs8_der_and_sign_algo", rcgen::KeyPair::from_pkcs8_der_and_sign_algo(&PrivatePkcs8KeyDer::from(bytes.to_vec()), alg));
 		let _ = call!("KeyPair::from_pem", rcgen::KeyPair::from_pem(text));
